@@ -118,11 +118,13 @@ pub fn run(arg: &str) -> (bool, String) {
         "c05" => c05(),
         "c07" => c07(),
         "c11" => c11(),
+        "c09" => c09(),
         _ => (false, format!("unknown scenario {arg}")),
     }
 }
 
 fn c08() -> (bool, String) {
+    for flag in [false, true] { // the authenticator-wide "new credentials get a counter" setting at assertion time
     for start in [Some(0u32), Some(1), Some(1 << 31), Some(u32::MAX - 1), Some(u32::MAX), None] {
         let store = RefStore::new(2);
         let id = register(&store, "a.example", true);
@@ -130,17 +132,19 @@ fn c08() -> (bool, String) {
         let mut prev = start;
         for round in 0..2 {
             let mut a = Authenticator::new(Aaguid::new_empty(), store.clone(), yes());
+            a.set_make_credentials_with_signature_counter(flag);
             let r = block_on(a.get_assertion(ga_request("a.example", None, true, true)));
             let resp = match r { Ok(x) => x, Err(e) => return (true, format!("counter {start:?} round {round}: assertion failed with {e:?}")) };
             let reported = resp.auth_data.counter;
             let stored = store.items.lock().unwrap().iter().find(|p| p.credential_id.to_vec() == id).unwrap().counter;
             match prev {
-                None => if reported.unwrap_or(0) != 0 || stored.is_some() { return (true, format!("credential without counter: reported {reported:?}, stored {stored:?}")); },
+                None => if reported.unwrap_or(0) != 0 || stored.is_some() { return (true, format!("credential without counter (authenticator setting for new credentials: {flag}): reported {reported:?}, stored {stored:?}")); },
                 Some(c) if c < u32::MAX => if reported != Some(c + 1) || stored != Some(c + 1) { return (true, format!("previous counter {c}: reported {reported:?}, stored {stored:?}, expected {}", c + 1)); },
                 Some(c) => if reported.unwrap_or(0) < c || stored.unwrap_or(0) < c { return (true, format!("counter at maximum wrapped: reported {reported:?}, stored {stored:?}")); },
             }
             prev = stored;
         }
+    }
     }
     (false, "counters ok for starts 0, 1, 2^31, 2^32-2, 2^32-1, none (two assertions each)".into())
 }
@@ -267,6 +271,83 @@ fn c11() -> (bool, String) {
 
 /// C18: run `arg` = get_info | make_credential | get_assertion through the trait; a child process is used by the
 /// caller because the failure mode is unbounded recursion (stack overflow aborts the process).
+/// C09: PRF outputs of an assertion are HMAC-SHA-256 (independent implementation: the hmac + sha2 crates) keyed with the
+/// verification-gated secret iff the user was verified, else the other secret, over the salts selected for the asserted
+/// credential (an evalByCredential entry for its id before the top-level eval); no verification and no ungated secret =>
+/// the assertion fails; no authenticator capability / no stored secret / no input => no PRF output.
+fn c09() -> (bool, String) {
+    use hmac::{Hmac, Mac};
+    use passkey_authenticator::extensions::HmacSecretConfig;
+    use passkey_types::ctap2::extensions::{AuthenticatorPrfInputs, AuthenticatorPrfValues};
+    use std::collections::HashMap;
+    fn mac(key: &[u8], msg: &[u8]) -> Vec<u8> { let mut m = Hmac::<sha2::Sha256>::new_from_slice(key).unwrap(); m.update(msg); m.finalize().into_bytes().to_vec() }
+    let mut n = 0;
+    for cfg in 0..3 {            // 0: extension off, 1: uv-only secrets, 2: with ungated secret
+        for stored in [true, false] {
+            for (uv_req, uv) in [(true, true), (false, true), (false, false)] {   // requested / performed verification
+                for shape in 0..6 {  // PRF input shapes
+                    n += 1;
+                    let mk = |st: RefStore, u: Uv| { let a = Authenticator::new(Aaguid::new_empty(), st, u);
+                        match cfg { 0 => a, 1 => a.hmac_secret(HmacSecretConfig::new_with_uv_only()), _ => a.hmac_secret(HmacSecretConfig::new_without_uv()) } };
+                    let store = RefStore::new(2);
+                    let mut reg = mk(store.clone(), yes());
+                    let mut req = mc_request("a.example", true, true, true, None);
+                    if stored { req.extensions = Some(make_credential::ExtensionInputs { hmac_secret: None, hmac_secret_mc: None, prf: Some(AuthenticatorPrfInputs { eval: None, eval_by_credential: None }) }); }
+                    if let Err(e) = block_on(reg.make_credential(req)) { return (true, format!("setup registration failed: {e:?}")); }
+                    // a second credential for the same RP, so that "per credential" is observable
+                    let mut req2 = mc_request("a.example", true, true, true, None); req2.user.id = vec![9, 9].into();
+                    req2.extensions = Some(make_credential::ExtensionInputs { hmac_secret: None, hmac_secret_mc: None, prf: Some(AuthenticatorPrfInputs { eval: None, eval_by_credential: None }) });
+                    let _ = block_on(reg.make_credential(req2));
+                    let pk = store.items.lock().unwrap()[0].clone();
+                    let other = store.items.lock().unwrap()[1].credential_id.to_vec();
+                    let id = pk.credential_id.to_vec();
+                    let vals = |a: u8, b: Option<u8>| AuthenticatorPrfValues { first: [a; 32], second: b.map(|x| [x; 32]) };
+                    let by = |entries: Vec<(Vec<u8>, AuthenticatorPrfValues)>| { let mut m = HashMap::new(); for (k, v) in entries { m.insert(k.into(), v); } Some(m) };
+                    // (inputs, expected salts)
+                    let (inputs, want): (AuthenticatorPrfInputs, Option<([u8; 32], Option<[u8; 32]>)>) = match shape {
+                        0 => (AuthenticatorPrfInputs { eval: Some(vals(1, None)), eval_by_credential: None }, Some(([1; 32], None))),
+                        1 => (AuthenticatorPrfInputs { eval: Some(vals(1, Some(2))), eval_by_credential: None }, Some(([1; 32], Some([2; 32])))),
+                        2 => (AuthenticatorPrfInputs { eval: Some(vals(1, None)), eval_by_credential: by(vec![(id.clone(), vals(3, Some(4))), (other.clone(), vals(5, None))]) }, Some(([3; 32], Some([4; 32])))),
+                        3 => (AuthenticatorPrfInputs { eval: Some(vals(1, Some(2))), eval_by_credential: by(vec![(other.clone(), vals(5, None))]) }, Some(([1; 32], Some([2; 32])))),
+                        4 => (AuthenticatorPrfInputs { eval: None, eval_by_credential: by(vec![(other.clone(), vals(5, None))]) }, None),
+                        _ => (AuthenticatorPrfInputs { eval: None, eval_by_credential: by(vec![(id.clone(), vals(6, None))]) }, Some(([6; 32], None))),
+                    };
+                    let u = Uv { capability: Some(true), report: Ok((true, uv)), shown: Default::default() };
+                    let mut a = mk(store.clone(), u);
+                    let mut ga = ga_request("a.example", Some(vec![desc(&id)]), true, uv_req);
+                    ga.extensions = Some(get_assertion::ExtensionInputs { hmac_secret: None, prf: Some(inputs) });
+                    let ctx = format!("config={} secret_stored={stored} uv requested={uv_req} performed={uv} input shape {shape}", ["off", "uv-only", "with-ungated"][cfg]);
+                    let res = block_on(a.get_assertion(ga));
+                    let secret = pk.extensions.hmac_secret.clone();
+                    let expect_out = cfg != 0 && secret.is_some() && want.is_some();
+                    let key: Option<Vec<u8>> = secret.as_ref().and_then(|s| if uv { Some(s.cred_with_uv.clone()) } else { s.cred_without_uv.clone() });
+                    match res {
+                        Err(e) => {
+                            let blocked = expect_out && key.is_none();
+                            let no_secret = cfg != 0 && secret.is_none();   // the library reports a missing stored secret as an error
+                            if !blocked && !no_secret { return (true, format!("{ctx}: assertion failed with {e:?}")); }
+                        }
+                        Ok(r) => {
+                            let got = r.unsigned_extension_outputs.and_then(|o| o.prf).map(|p| p.results);
+                            if !expect_out { if got.is_some() { return (true, format!("{ctx}: a PRF output was returned")); } continue; }
+                            let Some(key) = key else { return (true, format!("{ctx}: output produced although the user was not verified and no ungated secret exists")); };
+                            let Some(g) = got else { return (true, format!("{ctx}: no PRF output")); };
+                            let (s1, s2) = want.unwrap();
+                            if g.first.to_vec() != mac(&key, &s1) { return (true, format!("{ctx}: first output is not HMAC-SHA-256(secret selected by uv, salt selected for this credential)")); }
+                            match (g.second, s2) {
+                                (Some(o2), Some(s2)) => if o2.to_vec() != mac(&key, &s2) { return (true, format!("{ctx}: second output is not the HMAC of the second salt")); },
+                                (Some(_), None) => return (true, format!("{ctx}: second output without a second salt")),
+                                _ => {}
+                            }
+                        }
+                    }
+                }
+            }
+        }
+    }
+    (false, format!("PRF outputs agree with an independent HMAC-SHA-256 in {n} scenarios"))
+}
+
 pub fn c18(arg: &str) -> (bool, bool, String) {
     // sweep: store discoverability x request options x user response x (for makeCredential) exclude list / algorithm;
     // both authenticators start from equal store contents; compared: result, store content, number of user prompts
